@@ -385,7 +385,8 @@ def save_replay(prop_id, part_name, failure):
 
 
 def write_evidence(prop_id, doc):
-    d = os.path.join(VERIF, 'evidence')
+    # sensitivity runs against mutated copies redirect their evidence so that /verif/evidence only ever describes /repo
+    d = os.environ.get('VERIF_EVIDENCE_DIR') or os.path.join(VERIF, 'evidence')
     os.makedirs(d, exist_ok=True)
     tmp = os.path.join(d, f'.{prop_id}.json.tmp')
     with open(tmp, 'w') as f:
